@@ -19,9 +19,10 @@ only = sys.argv[1:]
 out = {}
 if os.path.exists(os.path.join(SEEDOUT, "validation.json")):
     out = json.load(open(os.path.join(SEEDOUT, "validation.json")))
-for d in sorted(glob.glob(SEEDOUT + "/C*")):
+for d in sorted(glob.glob(SEEDOUT + "/" + os.environ.get("SEED_GLOB", "C*"))):
     prop = os.path.basename(d)
-    for m in ("m1", "m2"):
+    for m in ("m1", "m2", "m3"):
+        if m == "m3" and not os.path.exists(os.path.join(d, "m3.diff")): continue
         key = prop + "-" + m
         if only and key not in only and prop not in only: continue
         patch = os.path.join(d, m + ".diff")
